@@ -225,6 +225,17 @@ theorem waitAt_wake_store {db0 db : DB} {k : Key} {out : List Reply} {n m : Nat}
   · exact Or.inl h1
   · exact Or.inr ⟨h1, (wake_prov db k out).2.2.1 w h2⟩
 
+theorem updateHold_seq_le' (d : DB) (h : Hold) (c : Cmd) : d.seq ≤ (updateHold d h c).1.seq := by
+  unfold updateHold
+  split
+  · exact Nat.le_refl _
+  · simp only []
+    split
+    · split
+      · exact Nat.le_succ _
+      · exact Nat.le_refl _
+    · exact Nat.le_refl _
+
 /-! ### LOCK -/
 
 theorem opLock_waitAt (db : DB) (c : Cmd) {n : Nat} {w : Waiter} (h : WaitAt (opLock db c).1 n w) :
@@ -236,12 +247,12 @@ theorem opLock_waitAt (db : DB) (c : Cmd) {n : Nat} {w : Waiter} (h : WaitAt (op
     rw [hb] at h; exact Or.inl h
   | update h' =>
     rw [hb] at h; simp only [applyLock] at h
-    rcases waitAt_store (db0 := db) (m := c.key) h (updateHold_db_keys _ _ _) hkk with ⟨_, h1⟩ | ⟨hn, h1⟩
+    rcases waitAt_wake_store (db0 := db) (m := c.key) h (updateHold_db_keys _ _ _) hkk with ⟨_, h1⟩ | ⟨hn, h1⟩
     · exact Or.inl h1
     · exact Or.inl (hn ▸ waitAt_getKey h1)
   | relock h' =>
     rw [hb] at h; simp only [applyLock] at h
-    rcases waitAt_store (db0 := db) (m := c.key) h (by simp [updateHold_db_keys]) hkk with ⟨_, h1⟩ | ⟨hn, h1⟩
+    rcases waitAt_wake_store (db0 := db) (m := c.key) h (by simp [updateHold_db_keys]) hkk with ⟨_, h1⟩ | ⟨hn, h1⟩
     · exact Or.inl h1
     · exact Or.inl (hn ▸ waitAt_getKey h1)
   | grant =>
@@ -281,18 +292,23 @@ theorem opLock_holdAt (db : DB) (c : Cmd) {n : Nat} {x : Hold} (h : HoldAt (opLo
     rw [hb] at h; exact Or.inl h
   | update h' =>
     rw [hb] at h; simp only [applyLock] at h
-    rcases holdAt_store (db0 := db) (m := c.key) h (updateHold_db_keys _ _ _) hkk with ⟨_, h1⟩ | ⟨hn, h1⟩
+    rcases holdAt_wake_store (db0 := db) (m := c.key) h (updateHold_db_keys _ _ _) hkk with ⟨_, h1⟩ | ⟨hn, h1 | h1⟩
     · exact Or.inl h1
     · rcases mem_replaceHolder h1 with h2 | h2
       · exact Or.inl (hn ▸ holdAt_getKey h2)
       · exact Or.inr ⟨hn, Or.inr (Or.inr (Or.inl ⟨h', rfl, h2⟩))⟩
+    · refine Or.inr ⟨hn, Or.inr (Or.inl ?_)⟩
+      exact WakeGrant.mono (db0 := db) (clock_updateHold _ _ _) (updateHold_seq_le' _ _ _) (fun w hw => hw) h1
   | relock h' =>
     rw [hb] at h; simp only [applyLock] at h
-    rcases holdAt_store (db0 := db) (m := c.key) h (by simp [updateHold_db_keys]) hkk with ⟨_, h1⟩ | ⟨hn, h1⟩
+    rcases holdAt_wake_store (db0 := db) (m := c.key) h (by simp [updateHold_db_keys]) hkk with ⟨_, h1⟩ | ⟨hn, h1 | h1⟩
     · exact Or.inl h1
     · rcases mem_replaceHolder h1 with h2 | h2
       · exact Or.inl (hn ▸ holdAt_getKey h2)
       · exact Or.inr ⟨hn, Or.inr (Or.inr (Or.inr ⟨h', rfl, h2⟩))⟩
+    · refine Or.inr ⟨hn, Or.inr (Or.inl ?_)⟩
+      exact WakeGrant.mono (db0 := db) (clock_updateHold db { h' with depth := h'.depth + 1 } c)
+        (updateHold_seq_le' db { h' with depth := h'.depth + 1 } c) (fun w hw => hw) h1
   | grant =>
     rw [hb] at h; simp only [applyLock] at h
     have hg : ∀ y ∈ (grantHold db (db.getKey c.key) c).2.holders, y ∈ (db.getKey c.key).holders ∨ y = grantedHold db c := by
@@ -338,7 +354,7 @@ theorem opUnlock_waitAt (db : DB) (c : Cmd) {n : Nat} {w : Waiter} (h : WaitAt (
   | stateError | notLocked | unown | cancelNone => rw [hb] at h; exact h
   | cancel w0 =>
     rw [hb] at h; simp only [applyUnlock] at h
-    rcases waitAt_store (db0 := db) (m := c.key) h rfl hkk with ⟨_, h1⟩ | ⟨hn, h1⟩
+    rcases waitAt_wake_store (db0 := db) (m := c.key) h rfl hkk with ⟨_, h1⟩ | ⟨hn, h1⟩
     · exact h1
     · exact hn ▸ waitAt_getKey (mem_removeWaiter h1)
   | dec h' c' =>
@@ -361,9 +377,10 @@ theorem opUnlock_holdAt (db : DB) (c : Cmd) {n : Nat} {x : Hold} (h : HoldAt (op
   | stateError | notLocked | unown | cancelNone => rw [hb] at h; exact Or.inl h
   | cancel w0 =>
     rw [hb] at h; simp only [applyUnlock] at h
-    rcases holdAt_store (db0 := db) (m := c.key) h rfl hkk with ⟨_, h1⟩ | ⟨hn, h1⟩
+    rcases holdAt_wake_store (db0 := db) (m := c.key) h rfl hkk with ⟨_, h1⟩ | ⟨hn, h1 | h1⟩
     · exact Or.inl h1
     · exact Or.inl (hn ▸ holdAt_getKey h1)
+    · exact Or.inr ⟨hn, Or.inl (WakeGrant.mono (db0 := db) rfl (Nat.le_refl _) (fun w hw => mem_removeWaiter hw) h1)⟩
   | dec h' c' =>
     have hm := classifyUnlock_mem db c h' (by rw [hb]; rfl)
     rw [hb] at h; simp only [applyUnlock] at h
@@ -385,14 +402,16 @@ theorem opUnlock_holdAt (db : DB) (c : Cmd) {n : Nat} {x : Hold} (h : HoldAt (op
 theorem fireTimeout_waitAt {db : DB} {key : Nat} {w0 : Waiter} {n : Nat} {w : Waiter} (h : WaitAt (fireTimeout db key w0).1 n w) :
     (n ≠ key ∧ WaitAt db n w) ∨ (n = key ∧ w ∈ removeWaiter (db.getKey key).waiters w0) := by
   unfold fireTimeout at h
-  exact waitAt_store (db0 := db) (m := key) h rfl (getKey_key db key)
+  exact waitAt_wake_store (db0 := db) (m := key) h rfl (getKey_key db key)
 
+/-- (since the C04 fix `doTimeOut` ends with a wake pass: it may create holds) -/
 theorem fireTimeout_holdAt {db : DB} {key : Nat} {w0 : Waiter} {n : Nat} {x : Hold} (h : HoldAt (fireTimeout db key w0).1 n x) :
-    HoldAt db n x := by
+    HoldAt db n x ∨ (n = key ∧ WakeGrant db (db.getKey key).waiters x) := by
   unfold fireTimeout at h
-  rcases holdAt_store (db0 := db) (m := key) h rfl (getKey_key db key) with ⟨_, h1⟩ | ⟨hn, h1⟩
-  · exact h1
-  · exact hn ▸ holdAt_getKey h1
+  rcases holdAt_wake_store (db0 := db) (m := key) h rfl (getKey_key db key) with ⟨_, h1⟩ | ⟨hn, h1 | h1⟩
+  · exact Or.inl h1
+  · exact Or.inl (hn ▸ holdAt_getKey h1)
+  · exact Or.inr ⟨hn, WakeGrant.mono (db0 := db) rfl (Nat.le_refl _) (fun w hw => mem_removeWaiter hw) h1⟩
 
 theorem fireExpire_waitAt {db : DB} {key : Nat} {h0 : Hold} {n : Nat} {w : Waiter} (h : WaitAt (fireExpire db key h0).1 n w) :
     WaitAt db n w := by
